@@ -310,6 +310,19 @@ class IntEval:
                 raise IntEval._Return(("ASSERT-FAILS", src(s.test)))
         elif isinstance(s, ast.Expr) and isinstance(s.value, ast.Constant):
             pass
+        elif isinstance(s, ast.Pass):
+            pass
+        elif isinstance(s, ast.AugAssign) and isinstance(s.target, ast.Name):
+            fake = ast.BinOp(left=ast.Name(id=s.target.id, ctx=ast.Load()), op=s.op, right=s.value)
+            env[s.target.id] = self.ev(fake, env)
+        elif isinstance(s, ast.While):
+            for _ in range(64):                     # the value space is tiny: a loop that does not end within 64 rounds does not end
+                if not self.ev(s.test, env):
+                    break
+                for x in s.body:
+                    self.stmt(x, env)
+            else:
+                raise IntEval._Return(("NON-TERMINATION-ERROR", src(s.test)))
         else:
             raise AnalysisError(f"value-set evaluator: unsupported statement `{short(s)}`")
 
@@ -358,6 +371,8 @@ class IntEval:
             v = self.ev(e.value, env)
             if isinstance(v, tuple) and v[0] == "Note":
                 return v[1]
+            if isinstance(v, tuple) and v and isinstance(v[0], str) and v[0].endswith("-ERROR"):
+                return v            # the subscript would have raised: the exception is the result
             raise AnalysisError(f"value-set evaluator: .value of `{short(e.value)}`")
         ch0 = attr_chain(e) if isinstance(e, ast.Attribute) else None
         if ch0 and len(ch0) == 2 and ch0[0] == "MusicMapping" and ch0[1] in self.t.nodes:
@@ -369,6 +384,17 @@ class IntEval:
             i = self.ev(e.slice, env)
             try:
                 return tab[i]
+            except (IndexError, KeyError, TypeError):
+                return ("INDEX-ERROR", i)
+        if ch0 == ["CircleOfFifths", "circle_of_fifths_order"]:
+            return [("Note", v) for v in self.cof]
+        if isinstance(e, ast.Subscript) and isinstance(e.value, ast.Name):
+            base = self.ev(e.value, env)
+            i = self.ev(e.slice, env)
+            if isinstance(i, tuple) and i and isinstance(i[0], str) and i[0].endswith("-ERROR"):
+                return i
+            try:
+                return base[i]
             except (IndexError, KeyError, TypeError):
                 return ("INDEX-ERROR", i)
         if isinstance(e, ast.Subscript) and attr_chain(e.value) == ["CircleOfFifths", "circle_of_fifths_order"]:
@@ -389,6 +415,22 @@ class IntEval:
                 if v in tab:
                     return tab.index(v)
                 return ("VALUE-ERROR", v)
+            if ch == ["len"] and len(e.args) == 1:
+                v = self.ev(e.args[0], env)
+                if isinstance(v, (list, tuple, dict)):
+                    return len(v)
+                return ("TYPE-ERROR", src(e))
+            if ch in (["abs"], ["min"], ["max"], ["int"]) and e.args:
+                vals = [self.ev(a, env) for a in e.args]
+                if all(isinstance(v, (int, bool)) for v in vals):
+                    return {"abs": abs, "min": min, "max": max, "int": int}[ch[0]](*vals)
+                return ("TYPE-ERROR", src(e))
+            if isinstance(e.func, ast.Attribute) and e.func.attr == "index" and isinstance(e.func.value, ast.Name) and len(e.args) == 1:
+                base = self.ev(e.func.value, env)
+                v = self.ev(e.args[0], env)
+                if isinstance(base, list):
+                    return base.index(v) if v in base else ("VALUE-ERROR", v)
+                return ("TYPE-ERROR", src(e))
             if ch == ["Note"]:
                 v = self.ev(e.args[0], env)
                 if v not in range(12):
